@@ -52,6 +52,9 @@ SPECS = [
     {'name': 'U32', 'type': 'UDINT', 'length': 3, 'address': None},
     {'name': 'D', 'type': 'LREAL', 'length': 3, 'address': None},
     {'name': 'Scalar', 'type': 'DINT', 'length': 1, 'address': None},
+] + [   # one scalar tag of every type both sides support (scalars go through the simulator's own default/assignment path)
+    {'name': 'S_' + t, 'type': t, 'length': 1, 'address': None}
+    for t in ('BOOL', 'SINT', 'INT', 'LINT', 'USINT', 'UINT', 'UDINT', 'ULINT', 'REAL', 'LREAL')
 ]
 BYNAME = {s['name']: s for s in SPECS}
 
@@ -157,9 +160,19 @@ class Connected(object):
 _SERVER = [None]
 
 
+_INITIAL = {}
+
+
 def reset_tags(server):
-    for s in SPECS:
-        server.set_values(s['name'], [M.default_value(s['type'])] * s['length'])
+    """Restore the values the simulator itself gave its tags at start-up (not values of the harness' choosing: the
+    Python type of a scalar tag's initial value decides how the simulator stores later writes)."""
+    import os
+    if _INITIAL.get('pid') != os.getpid():
+        _INITIAL.clear()
+        _INITIAL['pid'] = os.getpid()
+        _INITIAL['values'] = {s['name']: list(server.values(s['name'])) for s in SPECS}
+    for name, vals in _INITIAL['values'].items():
+        server.set_values(name, list(vals))
 
 
 def value_eq(t, got, want):
